@@ -51,20 +51,43 @@ pub fn run_loom(run: &Run, prop: &str, budget_secs: u64) -> LoomOut {
             }
         }
     }
+    // The child stops by itself at --max-secs (loom looks at the clock every 100 schedules); the parent kills it
+    // a little later if it has not, so the caller's wall-clock bound holds even on an oversubscribed machine.
+    let deadline = std::time::Instant::now() + std::time::Duration::from_secs(budget_secs + budget_secs / 8 + 2);
     let results = par_map(jobs.len(), |i| {
         let (name, bound, _, _) = &jobs[i];
-        std::process::Command::new(&exe)
+        let mut child = std::process::Command::new(&exe)
             .args(["run", name, "--preemptions", bound, "--max-secs", &budget_secs.to_string()])
             // keep glibc from returning/re-mapping the large per-iteration allocations (LruCache pre-sizing)
             .env("MALLOC_TRIM_THRESHOLD_", "2000000000")
             .env("MALLOC_MMAP_THRESHOLD_", "1000000000")
             .env("MALLOC_TOP_PAD_", "67108864")
-            .output()
+            .stdout(std::process::Stdio::piped())
+            .stderr(std::process::Stdio::piped())
+            .spawn()?;
+        // outputs are one line / a panic message: far below the pipe buffer, so polling before reading cannot block the child
+        loop {
+            match child.try_wait()? {
+                Some(_) => break,
+                None if std::time::Instant::now() > deadline => {
+                    let _ = child.kill();
+                    let _ = child.wait();
+                    return Err(std::io::Error::new(std::io::ErrorKind::TimedOut, "killed at the wall-clock cap"));
+                }
+                None => std::thread::sleep(std::time::Duration::from_millis(10)),
+            }
+        }
+        child.wait_with_output()
     });
     for (i, r) in results.into_iter().enumerate() {
         let (name, bound, ops, kinds) = &jobs[i];
         let o = match r {
             Ok(o) => o,
+            Err(e) if e.kind() == std::io::ErrorKind::TimedOut => {
+                out.incomplete.push(format!("{name}@{bound} (killed)"));
+                out.bodies.push(json!({"body": name, "preemption_bound": bound, "iterations": 0, "complete": false, "verdict": "not finished within the wall-clock cap"}));
+                continue;
+            }
             Err(e) => {
                 run.machinery_error(format!("cannot spawn loom body {name}: {e}"));
                 continue;
